@@ -186,6 +186,7 @@ def exec_case(ctx, case: Dict[str, Any]) -> None:
                 rid_of[i] = req.id
             timer = case.get("inject") == "timer"
             groups: Dict[float, List[Any]] = {}
+            nk = [0]
 
             def put(obj, who=None, t=None):
                 if who is not None:
@@ -199,7 +200,14 @@ def exec_case(ctx, case: Dict[str, Any]) -> None:
                 if not timer:
                     await vsleep_until(t)
                 if kind == "notify":
-                    put(parse_message({"jsonrpc": "2.0", "method": "notifications/message", "params": {"level": "info"}}), t=t)
+                    # unrelated notifications - some of them *mention* a caller's id (ids are per direction: the peer's
+                    # notifications/cancelled speaks of the peer's own request, a progress token may equal an id)
+                    nk[0] += 1
+                    named = rid_of[nk[0] % n]
+                    put(parse_message([{"jsonrpc": "2.0", "method": "notifications/message", "params": {"level": "info"}},
+                                       {"jsonrpc": "2.0", "method": "notifications/cancelled", "params": {"requestId": named, "reason": "peer's own"}},
+                                       {"jsonrpc": "2.0", "method": "notifications/progress", "params": {"progressToken": named, "progress": 1}}
+                                       ][nk[0] % 3]), t=t)
                 elif kind == "error":
                     put(parse_message({"jsonrpc": "2.0", "id": rid_of[who],
                                        "error": {"code": -32603, "message": f"for-caller-{who}"}}), who, t)
@@ -445,7 +453,10 @@ def exec_stdio_routed_case(ctx, case: Dict[str, Any]) -> None:
                     if "payload" in case and r["params"]["tag"].endswith("caller-0"):
                         # what a ping is answered with ({}), or any other payload that is false in Python: still the answer
                         result = case["payload"]
-                    p.feed(own_req + (json.dumps({"jsonrpc": "2.0", "method": "notifications/message", "params": {"level": "info"}}) + "\n"
+                    note = [{"jsonrpc": "2.0", "method": "notifications/message", "params": {"level": "info"}},
+                            {"jsonrpc": "2.0", "method": "notifications/cancelled", "params": {"requestId": r["id"], "reason": "peer's own"}},
+                            {"jsonrpc": "2.0", "method": "notifications/progress", "params": {"progressToken": r["id"], "progress": 1}}][k % 3]
+                    p.feed(own_req + (json.dumps(note) + "\n"
                                       + json.dumps({"jsonrpc": "2.0", "id": r["id"], "result": result}) + "\n").encode())
         p.stdin.send = send
         return p
